@@ -588,6 +588,21 @@ class StdioClient:
                         await anyio.sleep(0)
             except Exception as e:
                 logger.debug(f"Error during stdio client shutdown: {e}")
+            except BaseException:
+                # A cancellation the shield cannot hold off (a native Task.cancel(),
+                # as asyncio.timeout() / wait_for() deliver it) landed inside the
+                # grace periods: the child must still not outlive the context
+                if self.process and self.process.returncode is None:
+                    try:
+                        self.process.kill()
+                    except ProcessLookupError:
+                        pass
+                if self.process:
+                    with anyio.CancelScope(shield=True):
+                        await self.process.wait()
+                        await self.process.aclose()
+                        await anyio.sleep(0)
+                raise
 
         return False
 
